@@ -16,8 +16,6 @@ def validate_encoded(string):
 
 def validate_decoded(obj):
   if isinstance(obj, list):
-    if len(obj) == 0:
-      raise gfapy.FormatError("the list of GFA2 identifiers is empty")
     for elem in obj:
       if isinstance(elem, gfapy.Line):
         elem = str(elem.name)
